@@ -248,6 +248,23 @@ Step(e, extra) ==
                THEN {"C13_SubmitAddsExactly"} ELSE {}
          ELSE {})
         \cup
+        \* C13: what a client is told about a job is consistent in itself (the counts are the numbers of its tasks in each state) and
+        \* the job state computed from it follows the documented rules (docs/jobs/jobs.md, first rule that matches)
+        (IF e.a = "Query" /\ \E i \in DOMAIN e.resp : e.resp[i].found /\
+              LET d == e.resp[i]
+                  N(st) == Cardinality({k \in DOMAIN d.tasks : d.tasks[k].s = st})
+              IN \/ d.n_tasks # Len(d.tasks) \/ d.cnt.running # N("Running") \/ d.cnt.finished # N("Finished") \/ d.cnt.failed # N("Failed")
+                 \/ d.cnt.canceled # N("Canceled") \/ d.cnt.aborted # N("Aborted")
+         THEN {"C13_ReportedCountsMatch"} ELSE {})
+        \cup
+        (IF e.a = "Query" /\ \E i \in DOMAIN e.resp : e.resp[i].found /\
+              LET d == e.resp[i]
+                  N(st) == Cardinality({k \in DOMAIN d.tasks : d.tasks[k].s = st})
+                  rule == IF N("Running") > 0 THEN "Running" ELSE IF N("Waiting") > 0 THEN "Waiting" ELSE IF N("Failed") > 0 THEN "Failed"
+                          ELSE IF N("Aborted") > 0 THEN "Aborted" ELSE IF N("Canceled") > 0 THEN "Canceled" ELSE IF d.open THEN "Opened" ELSE "Finished"
+              IN d.status # rule
+         THEN {"C13_StatusRule"} ELSE {})
+        \cup
         \* C01/C13: no event about a task that was never accepted
         (IF UnknownTaskEvents(hist0, e.ev) # {} THEN {"C01_UnknownTaskReported"} ELSE {})
         \cup
